@@ -18,7 +18,7 @@ LEVEL = "exploration"
 RULE = ("histories over {fun, grad, fun_and_grad} x {a (interior), b (on a lower bound), c (vertex)}; "
         "all 9^L histories of length L are enumerated per gradient mode (every shorter history is a prefix and is "
         "judged at each step), L=4 quick / L=6 thorough, with the caller overwriting the array it passed after each "
-        "call (and a non-mutating variant) and the scaling factor changed before step p for every p; plus random "
+        "call (a non-mutating variant, and a variant passing one reused work array overwritten with each new point) and the scaling factor changed before step p for every p; plus random "
         "histories of length 7..30 in dimension 2..5. One case = (mode, first two requests, variant); a case is "
         "non-trivial when at least one of its histories revisits a point (a,b,a) or repeats one; distinct = distinct case keys")
 ASSUMPTIONS = [
@@ -123,7 +123,15 @@ class Driver:
         sf = self.sf
         self.flog = []
         nf0, ng0 = self.nf_total, self.ng_total
-        arg = np.array(point, dtype=float, copy=True)
+        if self.mutate == "reuse":
+            # the caller keeps ONE float64 work array, overwrites it with the next point and passes it again
+            if getattr(self, "buf", None) is None or self.buf.shape != np.shape(point):
+                self.buf = np.array(point, dtype=float, copy=True)
+            else:
+                self.buf[:] = point
+            arg = self.buf
+        else:
+            arg = np.array(point, dtype=float, copy=True)
         same_as_prev = self.prev_point is not None and np.array_equal(self.prev_point, point)
         nad0 = _AD_COUNT[0]
         if op == "fun":
@@ -134,7 +142,7 @@ class Driver:
             ans_f, ans_g = sf.fun_and_grad(arg)
         if ans_g is not None:
             ans_g = np.array(ans_g, copy=True)  # our private copy of the answer
-        if self.mutate:
+        if self.mutate is True:
             arg += 17.25  # the caller reuses its buffer
         out.count("requests")
         # 1. answers
@@ -236,9 +244,9 @@ def cases(tier, seed):
     for mode in MODES:
         for p0 in range(9):
             for p1 in range(9):
-                for mutate in (True, False):
+                for mutate in (True, False, "reuse"):
                     yield {"kind": "exhaustive", "mode": mode, "L": L, "prefix": [p0, p1], "mutate": mutate,
-                           "full_scale": tier == "quick"}
+                           "full_scale": tier == "quick" and mutate is True}
     nrand = 320 if tier == "quick" else 3200
     for i in range(nrand):
         yield {"kind": "random", "mode": MODES[i % 5], "seed": subseed("C15r", seed, i) % (2**31), "count": 16}
@@ -292,7 +300,7 @@ def run(spec):
                 Lr = int(rng.integers(7, 31))
                 hist = tuple(int(v) for v in rng.integers(0, 9, Lr))
                 sp = int(rng.integers(0, Lr))
-                run_history(mode, hist, sp, bool(rng.integers(0, 2)), out, n=n, label=f"random n={n} scale@{sp} ")
+                run_history(mode, hist, sp, [True, False, "reuse"][int(rng.integers(0, 3))], out, n=n, label=f"random n={n} scale@{sp} ")
                 out.count("histories")
                 out.count("random_histories")
                 if out.violations:
